@@ -319,6 +319,8 @@ impl Notification {
     fn to_repository_state(&self, fallback: FallbackTime) -> (r: RepositoryState)
         ensures r.session == self.content.session_spec(), r.serial == self.content.serial_spec(),
                 r.rpki_notify == self.uri,
+                // the record of a real update: updated now, best-before freshly drawn from now
+                is_now(r.updated_ts), fresh_draw(fallback, r.best_before_ts),
     { unimplemented!() }
 }
 
@@ -328,21 +330,34 @@ impl SystemTime {
     #[verifier::external_body] pub fn now() -> SystemTime { unimplemented!() }
     #[verifier::external_body] pub fn duration_since(&self, earlier: SystemTime) -> Result<Duration, SystemTimeError> { unimplemented!() }
 }
+// Time as Unix timestamps. Ghost predicates (produced only by the `ensures` below):
+//   is_now(t)            t is a reading of the clock taken during this call
+//   fresh_draw(fb, t)    t is a best-before time freshly drawn for the fallback window `fb`, counted from
+//                        the clock reading taken during this call (now + a random duration in [min, max))
+pub uninterp spec fn is_now(t: i64) -> bool;
+pub uninterp spec fn fresh_draw(fb: FallbackTime, t: i64) -> bool;
+// whether a best-before timestamp has passed at the clock reading taken in this call / its time value
+pub uninterp spec fn ts_expired(best_before_ts: i64) -> bool;
+pub uninterp spec fn ts_time(ts: i64) -> Option<DateTime<Utc>>;
 impl Utc {
-    #[verifier::external_body] pub fn now() -> DateTime<Utc> { unimplemented!() }
+    #[verifier::external_body]
+    pub fn now() -> (r: DateTime<Utc>) ensures is_now(r.timestamp_spec()) { unimplemented!() }
 }
 impl<T> DateTime<T> {
-    #[verifier::external_body] pub fn timestamp(&self) -> i64 { unimplemented!() }
+    pub uninterp spec fn timestamp_spec(&self) -> i64;
+    #[verifier::external_body] pub fn timestamp(&self) -> (r: i64) ensures r == self.timestamp_spec() { unimplemented!() }
 }
 impl FallbackTime {
-    #[verifier::external_body] pub fn best_before(self) -> DateTime<Utc> { unimplemented!() }
+    #[verifier::external_body]
+    pub fn best_before(self) -> (r: DateTime<Utc>) ensures fresh_draw(self, r.timestamp_spec()) { unimplemented!() }
 }
 impl RepositoryState {
     // the best-before time of the copy as a timestamp (None: the stored number is not a valid time)
-    pub uninterp spec fn best_before_spec(&self) -> Option<DateTime<Utc>>;
+    // both are functions of the stored best_before_ts field alone
+    spec fn best_before_spec(&self) -> Option<DateTime<Utc>> { ts_time(self.best_before_ts) }
     // whether the best-before time has passed AT THE CLOCK READING TAKEN IN THIS CALL (is_expired reads
     // the clock once; "if in doubt" -- no valid best-before time -- the copy counts as expired)
-    pub uninterp spec fn expired_now(&self) -> bool;
+    spec fn expired_now(&self) -> bool { ts_expired(self.best_before_ts) }
     #[verifier::external_body]
     fn is_expired(&self) -> (r: bool)
         ensures r == self.expired_now(), self.best_before_spec() is None ==> r,
